@@ -101,6 +101,9 @@ TWrite ==
 \* a write that never reached the store (the client crashed before it) changes nothing
 TCrash == IsEv("crash") /\ UNCHANGED <<dDone, dBy, sRunning, sDone, lists, bIdx, bDesc, ready, startDone, snapDone, muts, scen>>
 
+\* a write that failed transiently never reached the store either (the client lives on and sees the error)
+TFault == IsEv("fault") /\ UNCHANGED <<dDone, dBy, sRunning, sDone, lists, bIdx, bDesc, ready, startDone, snapDone, muts, scen>>
+
 \* ---- end of an operation
 TEnd ==
   /\ IsEv("end")
@@ -132,7 +135,7 @@ TBundle ==
         /\ ss \subseteq Get(snapDone, Ev.client, {})
   /\ UNCHANGED <<dDone, dBy, sRunning, sDone, lists, bIdx, bDesc, ready, startDone, snapDone, muts, scen>>
 
-TNext == TReset \/ TRead \/ TWrite \/ TCrash \/ TEnd \/ TBundle
+TNext == TReset \/ TRead \/ TWrite \/ TCrash \/ TFault \/ TEnd \/ TBundle
 TSpec == TInit /\ [][TNext]_tvars
 
 HighWater == TLCSet(1, l)
